@@ -160,7 +160,7 @@ Example ex_spectrum_locality :
   (exists s, Model.Spectrum.run Model.Spectrum.FirstFit ex_sst [ex_sr 3 0] = Ok (s, [Model.Spectrum.Accepted [-4] [2]])) /\
   (exists s, Model.Spectrum.run Model.Spectrum.FirstFit ex_sst [ex_sr 1 0; ex_sr 3 0] =
              Ok (s, [Model.Spectrum.Accepted [-4] [2]; Model.Spectrum.Accepted [0] [2]])).
-Proof. repeat split; eexists; vm_compute; reflexivity. Qed.
+Proof. split; [eexists; vm_compute; reflexivity|]. split; eexists; vm_compute; reflexivity. Qed.
 (* planning() with the C14 fold on the witness network: both requests feasible, slots in batch order *)
 Definition ex_sreq (rq : request) (ok : bool) : Model.Spectrum.request :=
   Model.Spectrum.mkR (q_id rq) (negb ok) 100 25000000000 100 [(None, None)] [0].
@@ -170,4 +170,4 @@ Example ex_planning_with_C14_fold :
   map snd (snd (planning (spectrum_assign Model.Spectrum.FirstFit ex_sreq) w_net (Ok ex_sst) [w_cold; w_hot])) =
     [Ok (Model.Spectrum.Accepted [-4] [2]); Ok (Model.Spectrum.Accepted [0] [2])] /\
   map (fun x => r_id (fst x)) (snd (planning (spectrum_assign Model.Spectrum.FirstFit ex_sreq) w_net (Ok ex_sst) [w_cold; w_hot])) = [2; 1].
-Proof. repeat split; vm_compute; reflexivity. Qed.
+Proof. split; [vm_compute; reflexivity|]. split; vm_compute; reflexivity. Qed.
